@@ -225,7 +225,7 @@ def check(ctx, rid):
                 for r_ in roots:
                     env[r_] = Obj(r_)
                 env.update({"tf": Obj("tf"), "torch": Obj("torch"), "np": Obj("np"), "jnp": Obj("jnp"), "log": Obj("log")})
-                label = f"{mname}({', '.join(f'{p}=None' for p in sit)})" if sit else mname
+                label = f"{mname}({', '.join(f'{p}=None' if v is None else f'{p}={_show(v)[:24]}' for p, v in sit.items())})" if sit else mname
                 site = f"{rel}::{cname}.{label}"
                 try:
                     selfattrs = {"precision": "64b", "name": backend, "dtypemap": {"float": Obj("FLOAT"), "int": Obj("INT"), "bool": Obj("BOOL")}}
